@@ -202,7 +202,7 @@ class C01(Check):
                   'the rule text the handler was registered with, bound to its own filters\' values '
                   '(params_are_rule_names, filter_guard); for every filter environment, rex selectors included, a '
                   'handler is only called when its own rule matches and only with filter answers (get_sound, '
-                  'handler_called_only_on_match); every syntax flavour parses to the same abstract rule (parse_print). For rule sets that use only plain / int / '
+                  'handler_called_only_on_match); installing a route hook / per-prefix 404 handler after any edit history, on any pattern under any wildcard names, leaves handler, method and kwargs of every lookup unchanged (hooks_keep_handler_kwargs); every syntax flavour parses to the same abstract rule (parse_print). For rule sets that use only plain / int / '
                   'float / path wildcards the filter environment is no longer a parameter: resolve_eq_rule_by_rule_builtin and '
                   'filter_guard_builtin state the property over the concrete handlers of Model/RouterBuiltinEnv.lean (an int kwarg is '
                   'the integer value of the -?\\d+ text at that position, a float kwarg the numeral matched by -?\\d+(\\.\\d+)?, a '
@@ -215,7 +215,11 @@ class C01(Check):
             'all filter kinds incl. rex selectors, malformed rules, several methods/names per pattern, names, overwrite) '
             'with lookups after almost every registration through RadiRouter.resolve, RadiDict.get(allow_partial) and '
             'Ombott.__call__ on paths derived from the accepted rules (per-regex samples) and mutated (empty segments, '
-            'CR, LF, non-ASCII, extra text, extra slashes); non-trivial = some lookup hits a wildcard rule. Thorough '
+            'CR, LF, non-ASCII, extra text, extra slashes); 30% of the regex filters carry context-sensitive zero-width assertions '
+            '(^ \\A \\b \\B, look-behinds on the characters literal runs are made of) so that matching on the remaining text and matching '
+            'in place differ behind a literal; a quarter of the histories install route hooks / per-prefix 404 handlers on registered '
+            'patterns and their prefixes under other wildcard names, before and after the registrations (compared with the model as '
+            '`redit hist` lines, requests with the hooks observed); non-trivial = some lookup hits a wildcard rule. Thorough '
             'search adds the exhaustive scope: every rule set of <= 3 rules of a 14-rule universe x every path of '
             'length <= 5 over {a / 1 - CR}. A fifth of the histories use the built-in filter pool: path wildcards before '
             'literals made of regex metacharacters (.tar/ +x (1) [a] $ ^ | ? * \\d) continuing afterwards, with decoy '
